@@ -145,6 +145,10 @@ class Norm:
         # normalised receiver text -> class qual (for argument binding)
         self.receiver_classes = receiver_classes or {}
         self._sig_busy: Set[str] = set()
+        # set by Events when a helper is read in place of its call (k4-c13-1): parameter -> text of the argument at the call site;
+        # hook (call, anon) -> text of the value an inlined helper call returns, or None
+        self.param_text: Dict[str, str] = {}
+        self.inline_value = None
 
     # ------------------------------------------------------------ folding
     def fold(self, e):
@@ -190,7 +194,7 @@ class Norm:
                 if d is not None:
                     return self.text(d, anon, depth + 1, selfname)
                 if e.id in self.defs.params and e.id not in self.defs.defs:
-                    return '$' + e.id
+                    return self.param_text.get(e.id, '$' + e.id)
                 if anon:
                     return '_'
                 return self.varsig(e.id, depth)
@@ -205,6 +209,10 @@ class Norm:
             base = t(e.value)
             return base + '.' + self.attr_map.get(e.attr, e.attr)
         if isinstance(e, ast.Call):
+            if self.inline_value is not None:
+                v = self.inline_value(e, anon)
+                if v is not None:
+                    return v
             return self.call_text(e, anon, depth, selfname)
         if isinstance(e, ast.Compare):
             parts = [t(e.left)]
@@ -396,13 +404,75 @@ BUILTIN_SILENT = {'builtins.len', 'builtins.isinstance', 'builtins.str', 'builti
 class Events:
     """Event labelling of one function for sibling comparison."""
 
-    def __init__(self, p: Project, func: Func, norm: Norm, test_filter=None):
+    def __init__(self, p: Project, func: Func, norm: Norm, test_filter=None, inline=False, filter_factory=None, _depth=0, _seen=()):
+        """inline=True: a call of a PRIVATE-TO-THE-FUNCTION helper - a module-level function of the caller's module, or a method of
+        the caller's own class called on self - that has no suspension point (not async, no await / yield) is read in place: its
+        events are projected where the call stands (parameters = the argument texts of the call site, its `return` is no event
+        of the caller, an exception leaving it takes the call statement's exceptional edges).  So a block moved verbatim into
+        such a helper gives the word it gave inline (preserving/k4-c13-1)."""
         self.p = p
         self.func = func
         self.norm = norm
         self.cfg = cfg_of(func, p)
-        self.test_filter = test_filter or (lambda e, txt: True)
+        self.filter_factory = filter_factory
+        self.test_filter = test_filter or (filter_factory(norm) if filter_factory else (lambda e, txt: True))
         self._cache: Dict[int, List[str]] = {}
+        self.inline, self._depth, self._seen = inline, _depth, tuple(_seen) + (func.qual,)
+        self._subs: Dict[int, Optional['Events']] = {}
+        self.inlined: List[str] = []
+        if inline:
+            norm.inline_value = self._value_text
+
+    # ------------------------------------------------------------ helpers read in place
+    def _sub(self, call: ast.Call, target) -> Optional['Events']:
+        """Events of the helper behind `call` when it is read in place, else None"""
+        if not self.inline:
+            return None
+        if id(call) in self._subs:
+            return self._subs[id(call)]
+        self._subs[id(call)] = None
+        f = self.func
+        c = strip_await(call)
+        if not isinstance(target, Func) or self._depth >= 2 or target.qual in self._seen or target.is_async or target.decorators \
+                or target.name.startswith('__') or target.parent is not None or c is not call \
+                or any(isinstance(x, (ast.Await, ast.Yield, ast.YieldFrom)) for x in walk_no_nested(target.node)) \
+                or any(isinstance(a, ast.Starred) for a in call.args) or any(k.arg is None for k in call.keywords):
+            return None
+        a = target.node.args
+        if a.vararg or a.kwarg or a.posonlyargs:
+            return None
+        names = [x.arg for x in a.args]
+        if isinstance(call.func, ast.Name) and target.cls is None and target.module is f.module:
+            cls = None
+        elif isinstance(call.func, ast.Attribute) and isinstance(call.func.value, ast.Name) and call.func.value.id == 'self' \
+                and target.cls is not None and f.cls is not None and target.cls is f.cls and names[:1] == ['self']:
+            cls, names = self.norm.cls, names[1:]
+        else:
+            return None
+        if len(call.args) > len(names):
+            return None
+        nm = self.norm
+        hn = Norm(self.p, target, cls=cls, qual_map=nm.qual_map, attr_map=nm.attr_map, receiver_classes=nm.receiver_classes)
+        for name, arg in list(zip(names, call.args)) + [(k.arg, k.value) for k in call.keywords]:
+            hn.param_text[name] = nm.text(arg, anon=True)
+        sub = Events(self.p, target, hn, None if self.filter_factory else self.test_filter, inline=True, filter_factory=self.filter_factory,
+                     _depth=self._depth + 1, _seen=self._seen)
+        self._subs[id(call)] = sub
+        self.inlined.append(target.qual)
+        return sub
+
+    def _value_text(self, call, anon) -> Optional[str]:
+        if not isinstance(call, ast.Call):
+            return None
+        try:
+            _name, target = self.norm.callee_of(call, anon=True)
+        except Exception:
+            return None
+        sub = self._sub(call, target)
+        if sub is None:
+            return None
+        rets = [r for r in walk_no_nested(sub.func.node) if isinstance(r, ast.Return) and r.value is not None]
+        return sub.norm.text(rets[0].value, anon) if len(rets) == 1 else '_'
 
     def _exc_ctor_calls(self, node) -> Set[int]:
         if node.kind == 'stmt' and isinstance(node.ast, ast.Raise) and isinstance(node.ast.exc, ast.Call):
@@ -429,6 +499,10 @@ class Events:
                     if isinstance(x, ast.Call) and id(x) not in skip:
                         name, target = nm.callee_of(x, anon=True)
                         if name in BUILTIN_SILENT or name.endswith('.format'):
+                            continue
+                        sub = self._sub(x, target)
+                        if sub is not None:
+                            out.append(('^INLINE', sub))
                             continue
                         # locals bound several times are anonymous here: their
                         # values are the business of the value rules (R2/R4)
@@ -481,9 +555,61 @@ class Events:
         # whose normal or exceptional exit is unreachable, e.g. `while True`
         # without break)
         live = self.cfg.reachable_ids
+        if self.inline:
+            nfa = flow.NFA()
+            start, out_exit, out_xexit = self._build(nfa, top=True)
+            nfa.start = start
+            if out_exit is not None:
+                nfa.accept.add(out_exit)
+            if out_xexit is not None:
+                fin = nfa.new()
+                nfa.add(out_xexit, '!raise', fin, self.cfg.xexit)
+                nfa.accept.add(fin)
+            return flow.determinise(nfa)
         nfa = flow.project(self.cfg, self.labels, accept_exit=self.cfg.exit in live,
                            accept_xexit='!raise' if self.cfg.xexit in live else None, edge_labeler=self.edge_label)
         return flow.determinise(nfa)
+
+    def _build(self, nfa, top: bool):
+        """flow.project with the helpers read in place spliced in: (entry state, state after EXIT | None, state after XEXIT | None)"""
+        cfg, live = self.cfg, self.cfg.reachable_ids
+        ins, mids, outs, xsrc = {}, {}, {}, {}
+        for n in cfg.nodes:
+            if n.id not in live:
+                continue
+            ins[n.id] = cur = nfa.new()
+            labels = list(self.labels(n)) if n.kind not in ('entry', 'exit', 'xexit') else []
+            if not top:
+                labels = [l for l in labels if l != 'RETURN']        # the helper's return is no event of the caller
+            xsrc[n.id] = []
+            for lab in [l for l in labels if isinstance(l, tuple) or l.startswith('^')]:
+                nxt = nfa.new()
+                if isinstance(lab, tuple):
+                    s_in, s_out, s_x = lab[1]._build(nfa, top=False)
+                    nfa.add(cur, None, s_in)
+                    if s_out is not None:
+                        nfa.add(s_out, None, nxt)
+                    if s_x is not None:
+                        xsrc[n.id].append(s_x)
+                else:
+                    nfa.add(cur, lab[1:], nxt, n.id)
+                cur = nxt
+            mids[n.id] = cur
+            for lab in [l for l in labels if not isinstance(l, tuple) and not l.startswith('^')]:
+                nxt = nfa.new()
+                nfa.add(cur, lab, nxt, n.id)
+                cur = nxt
+            outs[n.id] = cur
+        for n in cfg.nodes:
+            if n.id not in live:
+                continue
+            for (y, l) in cfg.succ[n.id]:
+                lab = self.edge_label(n.id, y, l)
+                nfa.add(mids[n.id] if l == 'exc' else outs[n.id], lab, ins[y], n.id)
+                if l == 'exc':
+                    for sx in xsrc[n.id]:
+                        nfa.add(sx, None, ins[y])
+        return ins[cfg.entry], outs.get(cfg.exit), outs.get(cfg.xexit)
 
 
 # ---------------------------------------------------------------------------
